@@ -80,4 +80,26 @@ example : orderMon [{ gor := "g", items := [{ notif := true, h := some { startSe
 example : (orderMon [{ gor := "g", items := [{ notif := true, h := some { startSeq := 7, finished := true, endSeq := 9 } },
     { h := some { startSeq := 6 } }] }]).length = 1 := by decide
 
+/-! ### handler runs and probes -/
+
+/-- **extraMon_complete.** -/
+theorem extraMon_complete (o : ExtraObs) : extraMon o = [] ↔ ExtraOK o := by
+  unfold extraMon ExtraOK
+  simp only [List.append_eq_nil_iff, List.map_eq_nil_iff, List.filter_eq_nil_iff, Bool.not_eq_true', decide_eq_false_iff_not,
+    Decidable.not_not]
+  constructor
+  · rintro ⟨⟨h1, h2⟩, h3⟩; exact ⟨fun h hh => ⟨h1 h hh, h2 h hh⟩, h3⟩
+  · rintro ⟨h1, h3⟩; exact ⟨⟨fun h hh => (h1 h hh).1, fun h hh => (h1 h hh).2⟩, h3⟩
+
+/-- **extraMon_sound.** -/
+theorem extraMon_sound (o : ExtraObs) (c : EClause) (h : c ∈ extraMon o) : c.holdsOf o := by
+  unfold extraMon at h
+  simp only [List.mem_append, List.mem_map, List.mem_filter, Bool.not_eq_true', decide_eq_false_iff_not] at h
+  rcases h with (⟨x, hx, rfl⟩ | ⟨x, hx, rfl⟩) | ⟨x, hx, rfl⟩ <;> exact hx
+
+example : extraMon { hands := [{ side := "server", kind := "tool" }], probes := [{ finished := true, closed := true }] } = [] := by decide
+example : (extraMon { hands := [{ runs := 2 }] }).length = 1 := by decide
+example : (extraMon { hands := [{ cancelled := true, bothOpen := true, cause := "connection-closed" }] }).length = 1 := by decide
+example : (extraMon { probes := [{ finished := false }] }).length = 1 := by decide
+
 end SessMon
